@@ -24,7 +24,7 @@ from mc.engine import Exc
 from models import bins as B
 from models import intervals as M
 
-from cnvlib import antitarget, target  # noqa: E402  (bound by checks.common)
+from cnvlib import antitarget, commands, target  # noqa: E402  (bound by checks.common)
 
 ID = "C12"
 BUDGET = {"quick": 900, "thorough": 5400}
@@ -120,11 +120,11 @@ def describe(tier):
         "bound": {
             "grid": "unit 400 bases, origin 200000; margins are 500 so grid and margin never coincide",
             "target_tables": ("<=3 bait rows incl. zero-width over 0..10 units" if t else "<=3 bait rows incl. zero-width over 0..5 units")
-            + " on chr1 x {alone, +chr2, +chrUn_x, both} x {no split, split at 266.67 / 400 / 1000} x short names",
+            + " on chr1 x {alone; <=2 rows also +chr2, +chrUn_x, both} x {no split, split at 266.67 / 400 / 1000} x short names (alone)",
             "target_fine": "one bait of every length 1..%d x avg {266.67, 267, 400, 1000, 100}" % (6000 if t else 1500),
             "labels": "every label sequence over 7 labels on 6 three-row tables" + (" and 2 four-row tables" if t else "")
             + " x short x split; shorten_labels on every sequence of <=5 labels; 4 annotation files x tables x layouts x short x split",
-            "antitarget_targets": ("every non-empty multiset of <=3 intervals over 0..10" if t else "every non-empty multiset of <=2 intervals over 0..8 and of 3 over 0..6")
+            "antitarget_targets": ("every non-empty multiset of <=2 intervals over 0..10 and of 3 over 0..9" if t else "every non-empty multiset of <=2 intervals over 0..8 and of 3 over 0..6")
             + " x 9 representative access tables (incl. none) x sizes (1000, default), (600, 300)"
             + ("" if t else " (3-interval tables: the first size pair and 5 access tables only)")
             + "; multi-contig layout for "
@@ -139,6 +139,8 @@ def describe(tier):
             "antitarget_zero_width": ("<=3 rows over 0..7" if t else "<=3 rows over 0..5") + " with >=1 zero-width and >=1 non-empty target x 2 access tables",
             "antitarget_origin": "<=2 intervals over 0..4 at origin 0 (margin clipped at 0) x {none, 2 access tables}",
             "pipeline": "do_target(split) output of every <=2-interval table over 0..6 fed to do_antitarget x 3 access tables",
+            "command_line": "cnvkit.py target on 20 bait files x 5 option sets; cnvkit.py antitarget on 17 target files x {no access, 2 access files} "
+            "x 2 size pairs with -o, and once with the output name left to the command",
         },
         "alphabet": {
             "contigs": CONTIG_ORDER,
@@ -183,7 +185,7 @@ def cases(tier):
     tabs = multisets(all_intervals(10 if t else 5), 3)
     for b in tabs:
         if b:
-            yield {"check": "target-tables", "b": b, "layouts": list(TARGET_LAYOUTS) if (t or len(b) <= 2) else ["single"]}
+            yield {"check": "target-tables", "b": b, "layouts": list(TARGET_LAYOUTS) if len(b) <= 2 else ["single"]}
     top = 6000 if t else 1500
     for lo in range(1, top + 1, 50):
         yield {"check": "target-fine", "lo": lo, "hi": min(top, lo + 49)}
@@ -200,7 +202,7 @@ def cases(tier):
             yield {"check": "target-annotate", "shape": shape, "ann": ann}
     # ---- antitarget
     if t:
-        ttabs = [x for x in multisets(ne_intervals(0, 10), 3) if x]
+        ttabs = [x for x in multisets(ne_intervals(0, 10), 2) if x] + [x for x in multisets(ne_intervals(0, 9), 3) if len(x) == 3]
         multi = [x for x in multisets(ne_intervals(0, 8), 2) if x] + [x for x in multisets(ne_intervals(0, 6), 3) if len(x) == 3]
     else:
         ttabs = [x for x in multisets(ne_intervals(0, 8), 2) if x] + [x for x in multisets(ne_intervals(0, 6), 3) if len(x) == 3]
@@ -240,6 +242,11 @@ def cases(tier):
     for x in multisets(ne_intervals(0, 6), 2):
         if x:
             yield {"check": "pipeline", "t": x}
+    for i in range(len(CLI_BAITS)):
+        yield {"check": "cli-target", "b": i}
+    for i in range(len(T_REP)):
+        yield {"check": "cli-antitarget", "t": i, "output": "given"}
+    yield {"check": "cli-antitarget", "t": 0, "output": "default"}
 
 
 def run(case, ctx):
@@ -278,12 +285,16 @@ def chr1_rows(units, origin=O):
 _ANN_DIR = []
 
 
-def annotation_file(name):
+def scratch_dir():
     if not _ANN_DIR:
-        d = tempfile.mkdtemp(prefix="c12_ann_", dir="/tmp")
+        d = tempfile.mkdtemp(prefix="c12_run_", dir="/tmp")
         atexit.register(shutil.rmtree, d, True)
         _ANN_DIR.append(d)
-    path = os.path.join(_ANN_DIR[0], name + ".bed")
+    return _ANN_DIR[0]
+
+
+def annotation_file(name):
+    path = os.path.join(scratch_dir(), name + ".bed")
     if not os.path.exists(path):
         with open(path, "w") as f:
             for c, s, e, g in ANNOTATIONS[name]:
@@ -308,7 +319,6 @@ def check_target(ctx, bga, full, split, avg, short, annotate, sub):
     """One do_target call against the statement.  Returns (bins or None, changed?)."""
     got = ctx.call(target.do_target, bga, annotate, short, split, avg)
     kept = B.nonempty(full)
-    feat = "%s/%s" % (shape_of(kept), zero_feature(full))
     mode = ("split" if split else "no-split") + ("+annotate" if annotate else "") + ("+short-names" if short else "")
     s = {"split": split, "avg": avg, "short_names": short, "annotate": os.path.basename(annotate) if annotate else None, **(sub or {})}
     if isinstance(got, Exc):
@@ -334,7 +344,7 @@ def check_target(ctx, bga, full, split, avg, short, annotate, sub):
                 "without --split the non-empty baits are returned unchanged"
                 if not (short or annotate)
                 else "label shortening and annotation never change the number or coordinates of bins",
-                f"target/{mode}/rows/{feat}",
+                f"target/{mode}/rows/{zero_feature(full)}",
                 expected=want,
                 observed=have,
                 sub=s,
@@ -343,7 +353,7 @@ def check_target(ctx, bga, full, split, avg, short, annotate, sub):
         for clause, key in B.split_problems(kept, coords, avg, CONTIG_ORDER[:3]):
             ctx.violation(
                 "target --split: " + clause,
-                f"target/{mode}/{key}/{feat}",
+                f"target/{mode}/{key}/{shape_of(kept)}",
                 expected={"merged_baits": M.cover(kept), "avg": avg},
                 observed=coords,
                 sub=s,
@@ -673,6 +683,106 @@ def run_pipeline(case, ctx):
     ctx.sample("pipeline", {"baits": full, "targets": trows})
 
 
+# --------------------------------------------------------------------------------------------
+# command line (cnvkit.py target / antitarget, BED in, BED out)
+CLI_BAITS = [x for x in T_REP] + [((0, 0), (1, 3)), ((1, 3), (2, 2), (4, 5)), ((2, 2), (3, 5), (3, 5))]
+
+
+def write_bed(name, rows):
+    path = os.path.join(scratch_dir(), name)
+    with open(path, "w") as f:
+        for r in rows:
+            f.write("\t".join(str(x) for x in r) + "\n")
+    return path
+
+
+def read_bed(path):
+    out = []
+    with open(path) as f:
+        for line in f:
+            if line.strip() and not line.startswith(("#", "track", "browser")):
+                x = line.rstrip("\n").split("\t")
+                out.append((x[0], int(x[1]), int(x[2])) + ((x[3],) if len(x) > 3 else ()))
+    return out
+
+
+def run_cli(ctx, argv):
+    def go():
+        args = commands.parse_args(argv)
+        return args.func(args)
+
+    return ctx.call(go)
+
+
+def run_cli_target(case, ctx):
+    units = CLI_BAITS[case["b"]]
+    full = [(c, s, e, "g%d" % i) for i, (c, s, e) in enumerate(sort_rows(chr1_rows(units) + [("chr2", pos(2), pos(4))]))]
+    kept = B.nonempty(full)
+    src = write_bed("cli_baits.bed", full)
+    dst = os.path.join(scratch_dir(), "cli_targets.bed")
+    for opts in ([], ["--split", "-a", "400"], ["--split"], ["--split", "-a", "400", "--short-names"], ["--short-names"]):
+        if os.path.exists(dst):
+            os.remove(dst)
+        got = run_cli(ctx, ["target", src] + opts + ["-o", dst])
+        sub = {"baits": full, "options": opts}
+        mode = "+".join(o.lstrip("-") for o in opts if o.startswith("--")) or "plain"
+        if isinstance(got, Exc) or not os.path.exists(dst):
+            ctx.violation("cnvkit.py target writes the bins", f"cli/target/raises/{getattr(got, 'key', 'no-output-file')}/{mode}", observed=got, sub=sub)
+            continue
+        ctx.trace()
+        out = read_bed(dst)
+        coords = [r[:3] for r in out]
+        ctx.outcome(hash(("cli-target", mode, tuple(out))))
+        if "--split" in opts:
+            avg = 400 if "-a" in opts else DEFAULT_TARGET_AVG
+            for clause, key in B.split_problems(kept, coords, avg, CONTIG_ORDER[:3]):
+                ctx.violation("target --split: " + clause, f"cli/target/{mode}/{key}", expected={"merged_baits": M.cover(kept), "avg": avg}, observed=coords, sub=sub)
+        else:
+            want = kept if not opts else [r[:3] for r in kept]
+            have = out if not opts else coords
+            if have != want:
+                ctx.violation("without --split the non-empty baits are returned unchanged", f"cli/target/{mode}/rows", expected=want, observed=have, sub=sub)
+        ctx.state(("cli-target", case["b"], mode), nontrivial=coords != [r[:3] for r in full])
+    ctx.stratum("cli-target")
+    ctx.sample("cli-target", {"baits": full})
+
+
+def run_cli_antitarget(case, ctx):
+    trows = sort_rows(chr1_rows(T_REP[case["t"]]))
+    src = write_bed("cli_anti_targets.bed", [r + ("g%d" % i,) for i, r in enumerate(trows)])
+    d = scratch_dir()
+    for a in (None, ((-2, 12),), ((-2, 4), (4, 12))):
+        arows = None if a is None else sort_rows(chr1_rows(a) + [("chr3", pos(0), pos(6)), ("chr6_x_alt", pos(0), pos(6))])
+        acc = ["-g", write_bed("cli_access.bed", arows)] if arows else []
+        for avg, mn in ((1000, None), (600, 300)):
+            argv = ["antitarget", src] + acc + ["-a", str(avg)] + (["-m", str(mn)] if mn else [])
+            sub = {"targets": trows, "access": arows, "avg": avg, "min": mn, "output": case["output"]}
+            dst = os.path.join(d, "cli_antitargets.bed")
+            for name in os.listdir(d):
+                if "antitarget" in name and name != "cli_anti_targets.bed":
+                    os.remove(os.path.join(d, name))
+            before = set(os.listdir(d))
+            got = run_cli(ctx, argv + (["-o", dst] if case["output"] == "given" else []))
+            new = sorted(set(os.listdir(d)) - before)
+            if isinstance(got, Exc) or len(new) != 1:
+                ctx.violation(
+                    "cnvkit.py antitarget writes the bins",
+                    f"cli/antitarget/raises/{getattr(got, 'key', 'no-output-file')}/output-{case['output']}",
+                    observed=got if isinstance(got, Exc) else new,
+                    sub=sub,
+                )
+                continue
+            ctx.trace()
+            bins = read_bed(os.path.join(d, new[0]))
+            ctx.outcome(hash(("cli-anti", tuple(bins))))
+            lo, hi = B.default_min_band(avg) if mn is None else (mn, mn)
+            for clause, key, exp, obs in B.antitarget_problems(bins, trows, arows, avg, lo, hi, CANONICAL):
+                ctx.violation("antitarget: " + clause, f"cli/antitarget/{key}", expected=exp, observed={"problem": obs, "bins": bins[:40]}, sub=sub)
+            ctx.state(("cli-anti", case["t"], a, avg, mn, case["output"]), nontrivial=bool(bins))
+    ctx.stratum("cli-antitarget-output-" + case["output"])
+    ctx.sample("cli-antitarget", {"targets": trows})
+
+
 RUNNERS = {
     "shorten-labels": run_shorten_labels,
     "target-tables": run_target_tables,
@@ -687,6 +797,8 @@ RUNNERS = {
     "antitarget-zero-width": run_antitarget_zero_width,
     "antitarget-origin": run_antitarget_origin,
     "pipeline": run_pipeline,
+    "cli-target": run_cli_target,
+    "cli-antitarget": run_cli_antitarget,
 }
 
 MANIFEST = {
